@@ -432,8 +432,8 @@ fn sum_bits(w: u32, a: &BigUint) -> u32 {
 }
 
 pub fn gen_cases(ctx: &Ctx) -> Vec<Case> {
-    let mut rng = ctx.rng("big");
-    let quick = ctx.quick();
+    let mut rng = ctx.rng(if ctx.search() { "big:search" } else { "big" });
+    let quick = crate::small(ctx);
     let mut cases = vec![];
     let mut push = |kind: &str, ops: Vec<Op>| cases.push(Case { kind: kind.into(), ops });
     let widths: Vec<u32> = if quick {
@@ -650,9 +650,9 @@ pub fn run(ctx: &mut Ctx) {
         }
         if verdict == "sat" && matches!(case.kind.as_str(), "arith" | "divrem" | "sub" | "modexp") {
             let e = tampered.entry(case.kind.clone()).or_insert(0);
-            if *e < if ctx.quick() { 1 } else { 5 } {
+            if *e < if crate::small(ctx) { 1 } else { 5 } {
                 *e += 1;
-                tamper(ctx, case, &r.public, if ctx.quick() { 40 } else { 250 });
+                tamper(ctx, case, &r.public, if crate::small(ctx) { 40 } else { 250 });
             }
         }
     }
